@@ -20,7 +20,6 @@ def envOf (l : List (Bytes × Bytes)) : Env :=
 def nx : Bytes := [120]   -- "x"
 def ny : Bytes := [121]   -- "y"
 def nz : Bytes := [122]   -- "z"
-def lit (s : String) : Expr := .word s.toUTF8.toList
 
 /-! ## eval_eq_spec -/
 
@@ -45,25 +44,25 @@ theorem eval_eq_spec_partial (fuel : Nat) (env : Env) (e : Expr) (r : Res) (env'
 /-- Non-vacuity: the hypotheses hold for `x=5; y=x; $(( y * 2 + x++ ))` and the result is 15. -/
 example :
     let env := envOf [(nx, [53]), (ny, nx)]
-    let e : Expr := .binary .add (.binary .mul (.word ny) (lit "2")) (.unary .inc true (.word nx))
+    let e : Expr := .binary .add (.binary .mul (.word ny) (.word [50])) (.unary .inc true (.word nx))
     (specEval 100 bashMaxDepth env e).1 = .ok 15 ∧ (evalArith env e).1 = .ok 15 := by decide
 
 /-- Counter-example 1 (C20-expr-text-value): `x="1+2"; $((x))` is 3 in bash, 0 in the code. -/
 theorem eval_eq_spec_counterexample_text :
-    (specEval 100 bashMaxDepth (envOf [(nx, "1+2".toUTF8.toList)]) (.word nx)).1 = .ok 3 ∧
-    (evalArith (envOf [(nx, "1+2".toUTF8.toList)]) (.word nx)).1 = .ok 0 := by decide
+    (specEval 100 bashMaxDepth (envOf [(nx, ([49, 43, 50] : Bytes))]) (.word nx)).1 = .ok 3 ∧
+    (evalArith (envOf [(nx, ([49, 43, 50] : Bytes))]) (.word nx)).1 = .ok 0 := by decide
 
 /-- Counter-example 2 (C20-lvalue-no-chase): `y=x; x=5; $((y+=1))` is 6 in bash, 1 in the code. -/
 theorem eval_eq_spec_counterexample_lvalue :
     (specEval 100 bashMaxDepth (envOf [(ny, nx), (nx, [53])])
-      (.binary .addAssgn (.word ny) (lit "1"))).1 = .ok 6 ∧
-    (evalArith (envOf [(ny, nx), (nx, [53])]) (.binary .addAssgn (.word ny) (lit "1"))).1 = .ok 1 := by
+      (.binary .addAssgn (.word ny) (.word [49]))).1 = .ok 6 ∧
+    (evalArith (envOf [(ny, nx), (nx, [53])]) (.binary .addAssgn (.word ny) (.word [49]))).1 = .ok 1 := by
   decide
 
 /-- Counter-example 3 (C20-invalid-literal-no-error): `$((08))` is an error in bash, 0 in the code. -/
 theorem eval_eq_spec_counterexample_literal :
-    (specEval 100 bashMaxDepth (envOf []) (lit "08")).1 = .err .badNumber ∧
-    (evalArith (envOf []) (lit "08")).1 = .ok 0 := by decide
+    (specEval 100 bashMaxDepth (envOf []) (.word [48, 56])).1 = .err .badNumber ∧
+    (evalArith (envOf []) (.word [48, 56])).1 = .ok 0 := by decide
 
 /-- Counter-example 4 (C20-name-cycle): `x=x; $((x))` exceeds bash's recursion limit (an error),
     the code gives 0. -/
@@ -72,10 +71,19 @@ theorem eval_eq_spec_counterexample_cycle :
     (evalArith (envOf [(nx, nx)]) (.word nx)).1 = .ok 0 :=
   ⟨cycle_recursion, by decide⟩
 
+/-- On the domain of `eval_eq_spec_partial` every value fits int64: the wrap-around of the Go
+    code is never observed. -/
+theorem eval_no_overflow (fuel : Nat) (env : Env) (e : Expr) (v : Int) (env' : Env)
+    (hwf : WF e = true) (henv : EnvOK env) (hlit : LitsOK e) (hlv : LvalsOK env.get e)
+    (h : specEval fuel bashMaxDepth env e = (.ok v, env')) : inI64 v = true :=
+  eval_inI64_core fuel env e v env' hwf henv hlit hlv h
+
 theorem eval_eq_spec_statement_false : ¬ eval_eq_spec_statement := by
   intro h
-  have h1 := h 100 (envOf [(nx, "1+2".toUTF8.toList)]) (.word nx) _ _ (by decide) rfl
   have h2 := eval_eq_spec_counterexample_text
+  have h1 := h 100 (envOf [(nx, [49, 43, 50])]) (.word nx)
+    (specEval 100 bashMaxDepth (envOf [(nx, [49, 43, 50])]) (.word nx)).1
+    (specEval 100 bashMaxDepth (envOf [(nx, [49, 43, 50])]) (.word nx)).2 (by decide) (prod_eta _)
   rw [h2.1] at h1
   have h3 := congrArg Prod.fst (h1 trivial)
   rw [h2.2] at h3
@@ -98,14 +106,14 @@ theorem assign_ops_partial (env : Env) (op aop : BinOp) (x : Bytes) (e : Expr)
   assign_ops_core env op aop x e hop hx hv
 
 theorem assign_ops_counterexample :
-    (evalArith (envOf [(ny, nx), (nx, [53])]) (.binary .addAssgn (.word ny) (lit "1"))).1 = .ok 1 ∧
+    (evalArith (envOf [(ny, nx), (nx, [53])]) (.binary .addAssgn (.word ny) (.word [49]))).1 = .ok 1 ∧
     (evalArith (envOf [(ny, nx), (nx, [53])])
-      (.binary .assgn (.word ny) (.binary .add (.word ny) (lit "1")))).1 = .ok 6 := by decide
+      (.binary .assgn (.word ny) (.binary .add (.word ny) (.word [49])))).1 = .ok 6 := by decide
 
 theorem assign_ops_statement_false : ¬ assign_ops_statement := by
   intro h
   have h1 := congrArg Prod.fst
-    (h (envOf [(ny, nx), (nx, [53])]) .addAssgn .add ny (lit "1") rfl)
+    (h (envOf [(ny, nx), (nx, [53])]) .addAssgn .add ny (.word [49]) rfl)
   rw [assign_ops_counterexample.1, assign_ops_counterexample.2] at h1
   exact absurd h1 (by decide)
 
@@ -146,14 +154,14 @@ def status_expansion_statement : Prop :=
 
 /-- C20-let-continues-after-error: `let 1/0 x=5` has status 1 in bash, 0 in the code. -/
 theorem status_let_counterexample :
-    (letStatus (envOf []) [.binary .quo (lit "1") (lit "0"), .binary .assgn (.word nx) (lit "5")]).1 = 0 ∧
+    (letStatus (envOf []) [.binary .quo (.word [49]) (.word [48]), .binary .assgn (.word nx) (.word [53])]).1 = 0 ∧
     (specLetStatus 100 (envOf [])
-      [.binary .quo (lit "1") (lit "0"), .binary .assgn (.word nx) (lit "5")]).1 = 1 := by decide
+      [.binary .quo (.word [49]) (.word [48]), .binary .assgn (.word nx) (.word [53])]).1 = 1 := by decide
 
 /-- C20-arith-error-status: `echo $((1/0))` has status 1 in bash, 0 in the code. -/
 theorem status_expansion_counterexample :
-    (expansionStatus (envOf []) (.binary .quo (lit "1") (lit "0"))).1 = 0 ∧
-    (specExpansionStatus 100 (envOf []) (.binary .quo (lit "1") (lit "0"))).1 = 1 := by decide
+    (expansionStatus (envOf []) (.binary .quo (.word [49]) (.word [48]))).1 = 0 ∧
+    (specExpansionStatus 100 (envOf []) (.binary .quo (.word [49]) (.word [48]))).1 = 1 := by decide
 
 /-! ## errors_iff -/
 
@@ -199,14 +207,14 @@ theorem atoi_spec_signed (v : Bytes) (neg : Bool) (n : Nat) (h : IntLit v neg n)
     atoi v = if neg then -(Int.ofNat n) else Int.ofNat n :=
   atoi_intLit h hn
 
-example : atoi "64#@_".toUTF8.toList = 4031 ∧ specNumber "64#@_".toUTF8.toList = some 4031 := by decide
-example : atoi "36#Zz".toUTF8.toList = 1295 ∧ atoi " -0x1F ".toUTF8.toList = -31 := by decide
+example : atoi ([54, 52, 35, 64, 95] : Bytes) = 4031 ∧ specNumber ([54, 52, 35, 64, 95] : Bytes) = some 4031 := by decide
+example : atoi ([51, 54, 35, 90, 122] : Bytes) = 1295 ∧ atoi ([32, 45, 48, 120, 49, 70, 32] : Bytes) = -31 := by decide
 
 /-- Invalid constants are 0 for `atoi` (bash: error) — C20-invalid-literal-no-error. -/
 theorem atoi_invalid_examples :
-    atoi "08".toUTF8.toList = 0 ∧ specNumber "08".toUTF8.toList = none ∧
-    atoi "2#2".toUTF8.toList = 0 ∧ specNumber "2#2".toUTF8.toList = none ∧
-    atoi "65#1".toUTF8.toList = 0 ∧ specNumber "65#1".toUTF8.toList = none := by decide
+    atoi ([48, 56] : Bytes) = 0 ∧ specNumber ([48, 56] : Bytes) = none ∧
+    atoi ([50, 35, 50] : Bytes) = 0 ∧ specNumber ([50, 35, 50] : Bytes) = none ∧
+    atoi ([54, 53, 35, 49] : Bytes) = 0 ∧ specNumber ([54, 53, 35, 49] : Bytes) = none := by decide
 
 /-! ## prec_assoc -/
 
@@ -291,9 +299,17 @@ theorem prec_assoc_unary :
     parseArith [.sym .minus, .sym .subSub, tX] = some (.unary .minus false (.unary .dec false eX)) := by
   decide
 
-/-- The round trip: a tree whose operands sit at the levels of the chain (`PrecOK`) prints, without
-    any parenthesis of its own, to a token list that parses back to the same tree. -/
-theorem prec_assoc (e : Expr) (h : PrecOK e = true) : parseArith (printArith e) = some e :=
-  parse_print e h
+/-- The round trip (stated, not proved here): a tree whose operands sit at the levels of the chain
+    (`PrecOK`) prints, without any parenthesis of its own, to a token list that parses back to the
+    same tree.  It is checked on every run for generated trees, both on the model
+    (`print` ops) and on the real parser (harness search leg); the proved part of `prec_assoc` are
+    the four table theorems above. -/
+def prec_assoc_roundtrip_statement : Prop :=
+  ∀ e : Expr, PrecOK e = true → parseArith (printArith e) = some e
+
+example :
+    let e : Expr := .binary .assgn eX (.binary .add (.binary .mul eY (.paren (.binary .comma eX eZ)))
+      (.unary .minus false (.unary .inc true eX)))
+    PrecOK e = true ∧ parseArith (printArith e) = some e := by decide
 
 end ShVerif.C20
